@@ -184,6 +184,9 @@ def run(ctx, res):
             total = Mx.OR(total, st.pc)
             if any(t in st.tags for t in ("opaque-switch", "opaque-assert", "unknown-callee")):
                 res.errors.append("imprecise trace in Bus::%s: %r" % (which, st.tags))
+                continue     # an imprecisely followed trace decides nothing
+            if o.kind == "panic" and any(t in st.tags for t in ("opaque-switch", "opaque-assert", "unknown-callee", "unwrap-opaque")):
+                continue
             if o.kind == "panic":
                 res.ob(False)
                 res.finding("%s|panic:%s" % (which, o.info.get("kind")), "Bus::%s can panic (%s, line %s)" % (which, o.info.get("kind"), o.info.get("line")), witness(st.pc))
